@@ -200,7 +200,11 @@ Fixpoint cpu_iter_collect (fuel : nat) (c : ctx_table) (rf : regfile) (st : iter
   end.
 Definition cpu_valid_registers (c : ctx_table) (rf : regfile) (v : validity) : outcome (list (name * Z)) :=
   let st := cpu_iter_init c v in cpu_iter_collect (S (length (snd st))) c rf st.
-Definition cpu_registers (c : ctx_table) (rf : regfile) : outcome (list (name * Z)) := cpu_valid_registers c rf VAll.
+Definition cpu_registers (c : ctx_table) (rf : regfile) : outcome (list (name * Z)) :=
+  match ct_regs_direct c with
+  | None => cpu_valid_registers c rf VAll
+  | Some src => let st := src_state src [] in cpu_iter_collect (S (length (snd st))) c rf st
+  end.
 (* MinidumpContext::get_stack_pointer / get_instruction_pointer: the arm's body, evaluated *)
 Definition md_stack_pointer (c : ctx_table) (rf : regfile) : outcome Z := aeval rf [] (ct_sp_acc c).
 Definition md_instruction_pointer (c : ctx_table) (rf : regfile) : outcome Z := aeval rf [] (ct_ip_acc c).
